@@ -109,6 +109,18 @@ def check_case(ctx, c, pool=None):
                 return [("marginal:raises", "%s raised %r" % (desc, ex))]
             pool.append(res)
             want = c["post"][c["res"] - 1]
+            # what came back is the caller's: editing it (post-selection in place) leaves the source as it was
+            if res.distribution_dict is src.distribution_dict:
+                out.append(("marginal:aliased", "%s: the marginal shares its dictionary with the source distribution" % desc))
+            else:
+                keep = dict(res.distribution_dict)
+                src_before = dict(src.distribution_dict)
+                k0 = next(iter(res.distribution_dict))
+                res.distribution_dict[k0] = 0.123
+                if dict(src.distribution_dict) != src_before:
+                    out.append(("marginal:aliased", "%s: editing the returned marginal changed the source distribution to %s" % (desc, src.distribution_dict)))
+                res.distribution_dict.clear()
+                res.distribution_dict.update(keep)
             if not same(res, want):
                 out.append(("marginal:value", "%s of %s = %s, fibre sums %s" % (desc, as_dict(c["pre"][c["o"] - 1]["d"]), res.distribution_dict, as_dict(want["d"]))))
         elif op == "saveload":
